@@ -1332,10 +1332,13 @@ class Concatenate(CanBehaveLikeAVariable[T]):
                     if not is_iterable(child_v_unwrapped):
                         child_v_unwrapped = [child_v_unwrapped]
                     all_values[self._id_].extend(child_v_unwrapped)
-                all_values[id_].append(val)
-            for s_id, s_val in sources.items():
-                all_values[s_id].append(s_val)
-        yield {k: HashedValue(v) for k, v in all_values.items()}
+                if id_ not in sources:
+                    all_values[id_].append(val)
+        # what was bound before the concatenation is evaluated is not part of it and keeps its binding: only the bindings
+        # of the concatenated expression are combined.
+        result = {k: HashedValue(v) for k, v in all_values.items()}
+        result.update(sources)
+        yield result
 
     @property
     def _name_(self):
